@@ -130,7 +130,7 @@ type objInfo struct {
 
 var harnessFiles = map[string]bool{"/cases.txt": true, "/impl.txt": true, "/oracle.txt": true, "/stats.json": true, "/tmp": true}
 
-// snapshot of everything that is not strictly below the working directory
+// snapshot of everything that is neither the working directory nor below it
 func snapshotOutside() map[string]objInfo {
 	out := map[string]objInfo{}
 	var rec func(p string)
@@ -158,7 +158,7 @@ func snapshotOutside() map[string]objInfo {
 		default:
 			o.Type = "o"
 		}
-		if p != "/" {
+		if p != "/" && p != wdDir { // the working directory itself is the store's own
 			out[p] = o
 		}
 		if o.Type == "d" && p != wdDir {
